@@ -389,3 +389,20 @@ NEUTRALS = [
     M("fallback written as an if", _B, "self.rng = rng or np.random.default_rng()\n        self._adapative_target_efficiency = False", "if rng is None:\n            rng = np.random.default_rng()\n        self.rng = rng\n        self._adapative_target_efficiency = False"),
     M("copy via dict unpacking call", _E, "self.sampler_kwargs = dict(sampler_kwargs or {})", "self.sampler_kwargs = copy.deepcopy(sampler_kwargs or {})"),
 ]
+
+# functions the property is anchored in (auto-mutant sweep of the thorough tier)
+ANCHORS = [
+    'aspire.samplers.smc.base:SMCSampler.__init__',
+    'aspire.samplers.smc.base:NumpySMCSampler.__init__',
+    'aspire.samplers.smc.minipcn:MiniPCNSMC.sample',
+    'aspire.samplers.smc.minipcn:MiniPCNSMC.mutate',
+    'aspire.samplers.smc.blackjax:BlackJAXSMC.__init__',
+    'aspire.samplers.smc.blackjax:BlackJAXSMC.sample',
+    'aspire.flows.jax.flows:FlowJax.__init__',
+    'aspire.flows.jax.flows:FlowJax.sample',
+    'aspire.flows.jax.flows:FlowJax.sample_and_log_prob',
+    'aspire.flows.jax.flows:FlowJax.fit',
+    'aspire.samples:SMCSamples.resample',
+    'aspire.samples:Samples.rejection_sample',
+    'aspire.samplers.smc.emcee:EmceeSMC.sample',
+]
